@@ -18,6 +18,7 @@
 import IgrisModel.C06.Lemmas
 import IgrisModel.C06.LemGrammar2
 import IgrisModel.C06.LemN
+import IgrisModel.C06.LemR3b
 namespace Igris.C06
 open Iso
 
@@ -637,6 +638,89 @@ theorem printf_ls_wide_witness :
     printf "%ls".toList [.str ['a', NUL, NUL, NUL, 'b', NUL, NUL, NUL, NUL, NUL, NUL, NUL]] = .done ['a'] 1 ∧
     printf "%lc".toList [.int 65] = .done ['A'] 1 := by
   constructor <;> decide
+
+/-! ## round 3b: `%p` as the property states it; print_i's `int`s linked to the loop -/
+
+/-- igris' rendering satisfies the property's clause for `%p`: `0x` followed by hex
+digits that parse back to the pointer (`PtrText` fixes no digit count) -/
+theorem igris_ptr_text (p : BitVec 64) : PtrText p.toNat (igrisPtr p.toNat) := by
+  obtain ⟨ds, h1, h2, h3⟩ := printf_p_parses_back p
+  exact ⟨ds, by intro h; simp [h] at h2, h1, h3⟩
+
+/-- the `%p` FIELD for every `*` width (any `int`, negative = `-` flag) and with or
+without the `-` flag: blanks up to the width on the proper side of a text that is
+`0x` + hex digits whose value is the pointer; the value returned is the length of
+the field = max(width, length of that text) -/
+theorem printf_p_field (minus : Bool) (w : BitVec 32) (p : BitVec 64) :
+    ∃ txt, PtrText p.toNat txt ∧
+      printf (if minus then "%-*p".toList else "%*p".toList) [.int w, .ptr p]
+        = .done (pad (minus || decide (w.toInt < 0)) w.toInt.natAbs txt)
+            ((max w.toInt.natAbs txt.length : Nat) : Int) := by
+  refine ⟨igrisPtr p.toNat, igris_ptr_text p, ?_⟩
+  have h : isoFormat igrisPtr (if minus then "%-*p".toList else "%*p".toList) [.int w, .ptr p]
+      = some (pad (minus || decide (w.toInt < 0)) w.toInt.natAbs (igrisPtr p.toNat)) := by
+    cases minus <;>
+    simp [isoFormat, isoAux, parseDirective, parseWidth, parsePrec, parseLen, isoConv, resolveWidth,
+      resolvePrec, isoBody, isFlag, NUL]
+  rw [printf_matches_iso _ _ _ h, pad_length']
+
+/-- every admissible rendering of a pointer (any digit count) has the SAME canonical
+form, the model's rendering: comparing `%p` fields in canonical form (what the
+harness does since round 3b) identifies exactly the texts the property allows -/
+theorem canon_ptr_text (p : Nat) (txt : List Char) (h : PtrText p txt) :
+    canonPtrText txt = some (igrisPtr p) := by
+  obtain ⟨ds, h1, h2, h3⟩ := h
+  subst h2
+  simp [canonPtrText, h1, h3]
+
+/-- the model's own rendering is a fixed point: the driver prints canonical fields -/
+theorem canon_ptr_igris (p : BitVec 64) : canonPtrText (igrisPtr p.toNat) = some (igrisPtr p.toNat) :=
+  canon_ptr_text _ _ (igris_ptr_text p)
+
+/-- ROUND 3b — the link between `print_i_ints_in_range` and the loop: whenever `loopN`, standing at a `%` with a
+nonnegative count (the invariant `pc = number of characters so far`), does NOT answer `intovf` (none of its three
+guards fired), the call of print_i that this directive makes (`printICall`) is made with a width and a precision
+that are nonnegative `int`s; and when the pass succeeds, what print_i returned is what the pass emits, the count
+stays inside `int`, and every `int` print_i computed on the way (`printIInts`) is in range -/
+theorem loopN_print_i_ints (fuel : Nat) (cs : List Char) (args : List Arg) (out : List Char) (pc : Int)
+    (st : List NStore) (res : OutcomeN) (hres : res ≠ .intovf) (hpc0 : 0 ≤ pc)
+    (h : loopN (fuel + 1) ('%' :: cs) args out pc st = res)
+    {u : BitVec 64} {sg : Bool} {w m : Int} {ops : Ops} {base : Nat}
+    (hc : printICall ('%' :: cs) args = some (u, sg, w, m, ops, base)) :
+    0 ≤ w ∧ w ≤ INT_MAX ∧ 0 ≤ m ∧ m ≤ INT_MAX ∧
+    ∀ emit dpc rest args', directive ('%' :: cs) args = .ok emit dpc rest args' →
+      printI u sg w m ops base = some (emit, dpc) ∧ pc + dpc ≤ INT_MAX ∧
+      ∀ x ∈ printIInts u sg w m ops base, -INT_MAX - 1 ≤ x ∧ x ≤ INT_MAX := by
+  obtain ⟨w0, p0, s0, a0, o0, hpo, hnn⟩ := printICall_not_n hc
+  have hg : intGuard ('%' :: cs) args = false := by
+    cases hgv : intGuard ('%' :: cs) args with
+    | false => rfl
+    | true =>
+      exfalso
+      apply hres
+      rw [← h]
+      simp [loopN, NUL, directiveN, hgv]
+  obtain ⟨p, s, a, o, hpo2, hm⟩ := printICall_params hc
+  obtain ⟨hw0, hw1, hp0, hp1⟩ := parseOpts_int_range hg hpo2
+  have hm0 : 0 ≤ m ∧ m ≤ INT_MAX := by
+    rcases hm with rfl | rfl
+    · exact ⟨hp0, hp1⟩
+    · unfold INT_MAX; omega
+  refine ⟨hw0, hw1, hm0.1, hm0.2, ?_⟩
+  intro emit dpc rest args' hdir
+  obtain ⟨h1, _⟩ := directive_printICall hc hdir
+  have hN : directiveN ('%' :: cs) args = .ok emit dpc rest args' none := by
+    unfold directiveN
+    simp [hg, hpo, hnn, hdir]
+  have hb : pc + dpc ≤ INT_MAX := by
+    by_cases hb : pc + dpc > INT_MAX
+    · exfalso
+      apply hres
+      rw [← h]
+      simp [loopN, NUL, hN, hb]
+    · omega
+  refine ⟨h1, hb, ?_⟩
+  exact printI_ints_range u sg w m ops base emit dpc h1 hw0 hw1 hm0.1 (by omega)
 
 /-! ## non-vacuity: the hypotheses above are satisfiable on non-trivial inputs -/
 
